@@ -150,7 +150,7 @@ def witness(chk, lens):
     """today's code as a deviation: TLC must refute 'reload never aborts' (regression witness, anti-vacuity)"""
     cfg = write_cfg(os.path.join(chk.wd, "PF_unwrap.cfg"), constants=consts(lens, ReloadMapsParseError=False), view="view",
                     invariants=["InvNeverAbort"])
-    res = tlc_check("ParamsFile", cfg, chk.wd, expect_violation="InvNeverAbort", workers=1, timeout=300)
+    res = tlc_check("ParamsFile", cfg, chk.wd, expect_violation="InvNeverAbort", workers=1, timeout=1500)
     log("[C20] ParamsFile with ReloadMapsParseError=FALSE (an unwrap on the parse error): TLC refutes InvNeverAbort "
         "after %d states (expected)" % res.distinct)
     return res
@@ -318,10 +318,10 @@ def selftest(chk):
                            ("no-truncate-roundtrip", dict(OpenTruncates=False), "InvRoundTrip"),
                            ("lossy-print", dict(PrintLoss=1), "InvRoundTrip")):
         cfg = write_cfg(os.path.join(chk.wd, "PF_%s.cfg" % name), constants=consts([2, 3], **dev), view="view", invariants=[inv])
-        res = tlc_check("ParamsFile", cfg, chk.wd, expect_violation=inv, workers=1, timeout=300)
+        res = tlc_check("ParamsFile", cfg, chk.wd, expect_violation=inv, workers=1, timeout=1500)
         log("[C20 selftest] deviation %s: TLC refutes %s (%d states)" % (name, inv, res.distinct))
     cfg = write_cfg(os.path.join(chk.wd, "PF_ok.cfg"), constants=consts([2, 3]), view="view", invariants=INVS)
-    tlc_check("ParamsFile", cfg, chk.wd, workers=1, timeout=300)
+    tlc_check("ParamsFile", cfg, chk.wd, workers=1, timeout=1500)
     # 2. a recorded trace, brought to what the property demands (torn -> err) must be accepted without divergence ...
     tf, rows, summ = record_and_validate(chk, 4, chk.seed, tag="st", raise_violations=False)
     rows = [dict(r) for r in rows]
